@@ -4,6 +4,7 @@ import Pxv.Lemmas.Ty
 import Pxv.Lemmas.TyEquiv
 import Pxv.Lemmas.TyCanon
 import Pxv.Lemmas.TyCanon2
+import Pxv.Lemmas.TyLifetimes
 import Pxv.Model.TyParse
 import Pxv.Lemmas.TyParse4
 import Pxv.Lemmas.TyRenderLk
@@ -171,6 +172,33 @@ example : canonicalize
   decide +kernel
 example : canonicalize (.tuple (.cons (.ref false (.named "x") (.generic "T")) (.cons (.generic "U") .nil)))
     = canonicalize (.tuple (.cons (.ref false .inferred (.generic "Q")) (.cons (.generic "R") .nil))) := by
+  decide +kernel
+
+/-! ### Lifetime names never matter for lookups
+
+`pavexc` rewrites lifetimes (`set_implicit_lifetimes`, `rename_lifetime_parameters`) around lookups that
+are keyed by canonical type; the canonical form is invariant under both, unless the rewrite introduces
+`'static`. -/
+
+/-- `set_implicit_lifetimes(x)` keeps the canonical form (for `x` other than `static`). -/
+theorem canon_setImplicit (x : String) (t : Ty) (hx : stripQuote x ≠ "static") :
+    canonicalize (setImplicit x t) = canonicalize t := by
+  simp [canonicalize, canonGo_setImplicit hx]
+
+/-- … and leaves no implicit lifetime behind (for `x` other than `_`). -/
+theorem setImplicit_explicit (x : String) (t : Ty) (hx : stripQuote x ≠ "_") :
+    hasImplicit (setImplicit x t) = false := hasImplicit_setImplicit hx t
+
+/-- `rename_lifetime_parameters(m)` keeps the canonical form if no target name is `static`. -/
+theorem canon_renameLts (m : List (String × String)) (t : Ty) (hm : NoStaticTargets m) :
+    canonicalize (renameLts m t) = canonicalize t := by
+  simp [canonicalize, canonGo_rename hm]
+
+example : canonicalize (setImplicit "'q" (.ref false .elided (.path false "p" none ["k", "Cow"] (.lt .inferred (.ty (.generic "T") .nil)))))
+    = canonicalize (.ref false .elided (.path false "p" none ["k", "Cow"] (.lt .inferred (.ty (.generic "T") .nil)))) := by
+  decide +kernel
+-- the side condition is needed: writing `'static` changes the canonical form
+example : canonicalize (setImplicit "static" (.ref false .elided (.scalar .u8))) ≠ canonicalize (.ref false .elided (.scalar .u8)) := by
   decide +kernel
 
 /-! ### Rendering to Rust source and reading it back -/
